@@ -2,7 +2,17 @@
    SymmetricDifference) and of Fst::{is_disjoint,is_subset,is_superset} (src/raw/mod.rs),
    plus the set-theoretic specification.  No proofs here.
 
-   Streams are lists of the items still to be yielded.  BinaryHeap<Slot> is a list of slots
+   An input stream is a caller-supplied Streamer.  `Streamer` (like `Iterator`) gives no "fused"
+   guarantee: a stream may yield further items when it is polled again after it has returned
+   None (think of a paged cursor).  An [instream] is therefore the list [s_items] it yields before
+   its first None TOGETHER WITH an arbitrary continuation [s_after]: the answer to the n-th poll
+   made after that first None (chosen by an adversary; [inert] = None for ever).  A [reader] is a
+   stream being read: [Live rest] (has not returned None yet) or [Done n] (has returned None and
+   has been polled n more times since), plus a count of all the polls made.  Every read of an
+   input stream in the code is a [poll] here, so "an exhausted stream is never polled again" is
+   the statement that no reader ever reaches [Done (S _)].
+
+   BinaryHeap<Slot> is a list of slots
    together with a function [pop_min] about which only "returns a least (input, output) slot
    and leaves the rest" is assumed (Slot's Ord is the reverse of (input, output), so the heap's
    maximum is the smallest pair; std does not specify which of several equal maxima comes out).
@@ -14,7 +24,27 @@ Require Import FstV.Base.
 From Coq Require Import Permutation.
 
 Record slot := mkslot { idx : nat; input : key; output : N }.
-Record sheap := mksheap { rdrs : list (list kv); heap : list slot }.
+
+(* ---------- input streams ---------- *)
+Record instream := mkinstream { s_items : list kv; s_after : nat -> option kv }.
+Definition inert (l : list kv) : instream := mkinstream l (fun _ => None).
+Inductive rstate := Live (rest : list kv) | Done (again : nat).
+Record reader := mkreader { r_state : rstate; r_after : nat -> option kv; r_polls : nat }.
+Definition open (x : instream) : reader := mkreader (Live (s_items x)) (s_after x) O.
+(* Streamer::next on an input stream *)
+Definition poll (r : reader) : option kv * reader :=
+  let p := S (r_polls r) in
+  match r_state r with
+  | Live (e :: l) => (Some e, mkreader (Live l) (r_after r) p)
+  | Live [] => (None, mkreader (Done O) (r_after r) p)
+  | Done n => (r_after r n, mkreader (Done (S n)) (r_after r) p)
+  end.
+(* what is observed of a reader: (polls made, polls made after it had returned None) *)
+Definition again_of (r : reader) : nat := match r_state r with Done n => n | Live _ => O end.
+Definition polls_of (rs : list reader) : list (nat * nat) := map (fun r => (r_polls r, again_of r)) rs.
+Definition live_of (s : rstate) : list kv := match s with Live l => l | Done _ => [] end.
+
+Record sheap := mksheap { rdrs : list reader; heap : list slot }.
 Definition iv := (nat * N)%type.            (* IndexedValue { index, value } *)
 Definition item := (key * list iv)%type.    (* what the op streams yield *)
 Definition indexed_value (s : slot) : iv := (idx s, output s).
@@ -48,6 +78,8 @@ Notation "'fdo' x <- r ; k" := (fbind r (fun x => k))
   (at level 200, x pattern, r at level 100, k at level 200, right associativity).
 
 Definition total (ss : list (list kv)) : nat := fold_right (fun s a => (length s + a)%nat) O ss.
+(* items the readers have not yielded yet *)
+Definition rtotal (rs : list reader) : nat := total (map (fun r => live_of (r_state r)) rs).
 
 (* Vec::swap_remove(0): panics (None) on an empty vector; otherwise the last element takes slot 0 *)
 Fixpoint split_last {A} (x : A) (l : list A) : list A * A :=
@@ -72,8 +104,13 @@ Variable pop_min : list slot -> option (slot * list slot).
 Definition refill (u : sheap) (s : slot) : res sheap :=
   match nth_error (rdrs u) (idx s) with
   | None => Panic
-  | Some [] => Ok u
-  | Some ((k, v) :: r) => Ok (mksheap (set_nth (rdrs u) (idx s) r) (mkslot (idx s) k v :: heap u))
+  | Some r =>
+    let (a, r') := poll r in
+    let rs := set_nth (rdrs u) (idx s) r' in
+    match a with
+    | None => Ok (mksheap rs (heap u))
+    | Some (k, v) => Ok (mksheap rs (mkslot (idx s) k v :: heap u))
+    end
   end.
 
 (* StreamHeap::new: for i in 0..rdrs.len() { refill(Slot::new(i)) } *)
@@ -82,8 +119,8 @@ Fixpoint refill_all (u : sheap) (i n : nat) : res sheap :=
   | O => Ok u
   | S n' => do u' <- refill u (mkslot i [] 0); refill_all u' (S i) n'
   end.
-Definition sh_new (streams : list (list kv)) : res sheap :=
-  refill_all (mksheap streams []) O (length streams).
+Definition sh_new (streams : list instream) : res sheap :=
+  refill_all (mksheap (map open streams) []) O (length streams).
 
 Definition sh_pop (u : sheap) : option (slot * sheap) :=
   match pop_min (heap u) with
@@ -146,7 +183,7 @@ Definition refill_instead (op : selop) (popped nslots : nat) : bool :=
   | OpSymdiff => Nat.eqb (Nat.modulo popped 2) 0 (* popped % 2 == 0 *)
   end.
 
-Definition hsize (u : sheap) : nat := (length (heap u) + total (rdrs u))%nat.
+Definition hsize (u : sheap) : nat := (length (heap u) + rtotal (rdrs u))%nat.
 
 Fixpoint sel_loop (op : selop) (n : nat) (u : sheap) (outs : list iv) : fres (option item * opstate) :=
   match n with
@@ -166,17 +203,17 @@ Definition sel_next (op : selop) (st : opstate) : fres (option item * opstate) :
   fdo u <- lift (refill_cur st);
   sel_loop op (S (hsize u)) u (o_outs st).
 
-Definition op_new (ss : list (list kv)) : res opstate :=
+Definition op_new (ss : list instream) : res opstate :=
   do u <- sh_new ss; Ok (mkop u [] None).
 
 (* ---------- Difference ---------- *)
-Record dstate := mkd { d_set : list kv; d_key : key; d_heap : sheap; d_outs : list iv }.
+Record dstate := mkd { d_set : reader; d_key : key; d_heap : sheap; d_outs : list iv }.
 
 (* OpBuilder::difference *)
-Definition diff_new (ss : list (list kv)) : res dstate :=
+Definition diff_new (ss : list instream) : res dstate :=
   match swap_remove0 ss with
   | None => Panic
-  | Some (first, rest) => do u <- sh_new rest; Ok (mkd first [] u [])
+  | Some (first, rest) => do u <- sh_new rest; Ok (mkd (open first) [] u [])
   end.
 
 (* while let Some(slot) = heap.pop_if_le(&key) { if slot.input() == key { unique = false }; refill(slot) } *)
@@ -197,9 +234,9 @@ Fixpoint diff_loop (n : nat) (st : dstate) : fres (option item * dstate) :=
   match n with
   | O => None
   | S n' =>
-    match d_set st with
-    | [] => fret (None, st)
-    | (k, v) :: r =>
+    match poll (d_set st) with                      (* match self.set.next() *)
+    | (None, r) => fret (None, mkd r (d_key st) (d_heap st) (d_outs st))
+    | (Some (k, v), r) =>
       let outs := [(O, v)] in
       fdo q <- drain_le (S (hsize (d_heap st))) (d_heap st) k true;
       let '(u2, unique) := q in
@@ -208,40 +245,64 @@ Fixpoint diff_loop (n : nat) (st : dstate) : fres (option item * dstate) :=
     end
   end.
 Definition diff_next (st : dstate) : fres (option item * dstate) :=
-  diff_loop (S (length (d_set st))) st.
+  diff_loop (S (length (live_of (r_state (d_set st))))) st.
 
 (* ---------- draining an op stream: while let Some(x) = s.next() { v.push(x) } ---------- *)
-Fixpoint collect {St : Type} (next : St -> fres (option item * St)) (n : nat) (st : St) : fres (list item) :=
+(* returns the items and the state the stream is left in *)
+Fixpoint collect {St : Type} (next : St -> fres (option item * St)) (n : nat) (st : St) : fres (list item * St) :=
   match n with
   | O => None
   | S n' =>
     fdo r <- next st;
     match fst r with
-    | None => fret []
-    | Some it => fdo l <- collect next n' (snd r); fret (it :: l)
+    | None => fret ([], snd r)
+    | Some it => fdo q <- collect next n' (snd r); fret (it :: fst q, snd q)
     end
   end.
 
+Definition items_total (ss : list instream) : nat := total (map s_items ss).
+Definition op_polls (st : opstate) : list (nat * nat) := polls_of (rdrs (o_heap st)).
+(* the first stream, then the others in the order swap_remove(0) leaves them in *)
+Definition d_polls (st : dstate) : list (nat * nat) := polls_of (d_set st :: rdrs (d_heap st)).
+
+(* the operations over arbitrary streams: (items emitted, per reader (polls, polls after None)) *)
+Definition run_union_on (ss : list instream) : fres (list item * list (nat * nat)) :=
+  fdo st <- lift (op_new ss);
+  fdo q <- collect union_next (S (items_total ss)) st; fret (fst q, op_polls (snd q)).
+Definition run_sel_on (op : selop) (ss : list instream) : fres (list item * list (nat * nat)) :=
+  fdo st <- lift (op_new ss);
+  fdo q <- collect (sel_next op) (S (items_total ss)) st; fret (fst q, op_polls (snd q)).
+Definition run_difference_on (ss : list instream) : fres (list item * list (nat * nat)) :=
+  fdo st <- lift (diff_new ss);
+  fdo q <- collect diff_next (S (items_total ss)) st; fret (fst q, d_polls (snd q)).
+
+(* the same over well-behaved streams given as lists *)
 Definition run_union (ss : list (list kv)) : fres (list item) :=
-  fdo st <- lift (op_new ss); collect union_next (S (total ss)) st.
+  fdo q <- run_union_on (map inert ss); fret (fst q).
 Definition run_sel (op : selop) (ss : list (list kv)) : fres (list item) :=
-  fdo st <- lift (op_new ss); collect (sel_next op) (S (total ss)) st.
+  fdo q <- run_sel_on op (map inert ss); fret (fst q).
 Definition run_intersection := run_sel OpInter.
 Definition run_symdiff := run_sel OpSymdiff.
 Definition run_difference (ss : list (list kv)) : fres (list item) :=
-  fdo st <- lift (diff_new ss); collect diff_next (S (total ss)) st.
+  fdo q <- run_difference_on (map inert ss); fret (fst q).
 
 (* ---------- Fst::is_disjoint / is_subset / is_superset ---------- *)
 (* self.op().add(stream).intersection().next().is_none() *)
-Definition is_disjoint (s0 s1 : list kv) : fres bool :=
+Definition is_disjoint_on (s0 s1 : instream) : fres (bool * list (nat * nat)) :=
   fdo st <- lift (op_new [s0; s1]);
   fdo r <- sel_next OpInter st;
-  fret (match fst r with None => true | Some _ => false end).
+  fret (match fst r with None => true | Some _ => false end, op_polls (snd r)).
 (* count the items of the intersection / union; count == self.len() *)
+Definition is_subset_on (selflen : N) (s0 s1 : instream) : fres (bool * list (nat * nat)) :=
+  fdo q <- run_sel_on OpInter [s0; s1]; fret (N.eqb (N.of_nat (length (fst q))) selflen, snd q).
+Definition is_superset_on (selflen : N) (s0 s1 : instream) : fres (bool * list (nat * nat)) :=
+  fdo q <- run_union_on [s0; s1]; fret (N.eqb (N.of_nat (length (fst q))) selflen, snd q).
+Definition is_disjoint (s0 s1 : list kv) : fres bool :=
+  fdo q <- is_disjoint_on (inert s0) (inert s1); fret (fst q).
 Definition is_subset (selflen : N) (s0 s1 : list kv) : fres bool :=
-  fdo l <- run_intersection [s0; s1]; fret (N.eqb (N.of_nat (length l)) selflen).
+  fdo q <- is_subset_on selflen (inert s0) (inert s1); fret (fst q).
 Definition is_superset (selflen : N) (s0 s1 : list kv) : fres bool :=
-  fdo l <- run_union [s0; s1]; fret (N.eqb (N.of_nat (length l)) selflen).
+  fdo q <- is_superset_on selflen (inert s0) (inert s1); fret (fst q).
 End Model.
 
 (* ---------- executable heaps: leftmost and rightmost least element ---------- *)
@@ -314,6 +375,16 @@ Definition spec_difference (ss : list (list kv)) : list item :=
 Definition spec_disjoint (s0 s1 : list kv) : bool := forallb (fun e => negb (has_key (fst e) s1)) s0.
 Definition spec_subset (s0 s1 : list kv) : bool := forallb (fun e => has_key (fst e) s1) s0.
 Definition spec_superset (s0 s1 : list kv) : bool := spec_subset s1 s0.
+
+(* polling discipline, per stream, as (polls made, polls made after it had returned None):
+   [full_polls] = read to the end: one poll per item, one for the None, none afterwards;
+   [polls_ok] = possibly not read to the end, and never polled after its None *)
+Definition full_polls (x : instream) : nat * nat := (S (length (s_items x)), O).
+Definition polls_ok (x : instream) (pa : nat * nat) : Prop := (fst pa <= S (length (s_items x)))%nat /\ snd pa = O.
+(* a stream that is not inert: polled again after its None it yields one key no input has *)
+Definition poison_kv : kv := ([255; 254; 253; 252]%N, 57005%N).
+Definition poisoned (l : list kv) : instream :=
+  mkinstream l (fun n => match n with O => Some poison_kv | S _ => None end).
 
 Definition streams_ok (ss : list (list kv)) : Prop := Forall (fun s => kmap_ok s = true) ss.
 
